@@ -71,6 +71,7 @@ Theorem C07_source_facts :
   gen_header_size = header_size /\ gen_frame_writers_outside_protocol = 1 /\ gen_raw_stream_writes_in_peer = 0 /\
   gen_wsd_step = max_payload /\
   gen_adapter_capacity = adapter_cap /\ gen_adapter_drops_when_full = true /\
+  gen_pushdata_blocks_until_room = true /\ gen_shell_seal_and_write_one_section = true /\
   gen_paths = model_table.
 Proof. repeat split; reflexivity. Qed.
 Print Assumptions C07_source_facts.
@@ -120,6 +121,22 @@ Theorem C07_exact_when_blocks_fit : forall pa k, 0 < p_buf pa -> trailer_silent 
     r_out (receive pa k expect (o_frames o)) = concat blocks.
 Proof. exact reassembly_exact_small_blocks. Qed.
 Print Assumptions C07_exact_when_blocks_fit.
+
+(** Several goroutines sharing one session key (shell stdout / stderr pumps
+    and exit notifier): when sealing and handing the frame to the writer are one
+    critical section, for every number of senders and every schedule the
+    receiver accepts every frame ... *)
+Theorem C07_shared_key_atomic_accepts_all : forall steps,
+  only_both steps = true -> accept_all 0 (sh_wire (sh_run steps)) = true.
+Proof. exact shared_key_atomic_accepts_all. Qed.
+Print Assumptions C07_shared_key_atomic_accepts_all.
+
+(** ... and when the lock covers the seal only, two senders can put their frames
+    on the wire in the wrong order and the receiver refuses the older one. *)
+Theorem C07_refuted_if_seal_and_write_split : exists steps,
+  accept_all 0 (sh_wire (sh_run steps)) = false /\ sh_wire (sh_run steps) = [1; 0].
+Proof. exact shared_key_split_refuted. Qed.
+Print Assumptions C07_refuted_if_seal_and_write_split.
 
 (** Beyond the tunnel: the shell client adapter between the mesh receiver and
     the WebSocket writer DROPS output when its 64-message buffer stays full
